@@ -358,7 +358,17 @@ def include_handling(ctx, repo):
         for c in calls_in(g.node):
             if norm(c.func) == "os.path.join" and len(c.args) == 2 and all(isinstance(a, ast.Name) for a in c.args):
                 a, b = c.args[0].id, c.args[1].id
-                if "os.path.dirname(self.file.name)" in defs.get(a, ()) and "attrs.get('src')" in defs.get(b, ()):
+                src_ok = "attrs.get('src')" in defs.get(b, ())
+                if not src_ok and g.node is not xr.node:
+                    # b is a parameter of the helper: the handler passes attrs.get('src') for it
+                    ps = [p_.arg for p_ in g.node.args.args]
+                    if b in ps:
+                        k = ps.index(b) - (1 if ps and ps[0] in ("self", "cls") else 0)
+                        for c2 in calls_in(xr.node):
+                            if last_attr(c2) == g.node.name or call_name(c2) == g.node.name:
+                                if 0 <= k < len(c2.args) and norm(c2.args[k]) == "attrs.get('src')" or any(kw.arg == b and norm(kw.value) == "attrs.get('src')" for kw in c2.keywords):
+                                    src_ok = True
+                if "os.path.dirname(self.file.name)" in defs.get(a, ()) and src_ok:
                     ok = True
     ctx.ob("F7i", xr.where, "reader resolves src= against the including file's directory", ok)
     ok = all("self.ttFont" in norm(c) for c in calls_in(xr.node) if call_name(c) == "XMLReader") and any(call_name(c) == "XMLReader" for c in calls_in(xr.node))
